@@ -86,6 +86,10 @@ structure Inv (s : State) : Prop where
   startAcc : ∀ k, (s.task k).started = true → (s.task k).accepted = true
   discInv : ∀ k, (s.task k).discarded = true → (s.task k).accepted = true ∧ (s.task k).started = false
   ranArg : ∀ k, (s.task k).started = true → (s.task k).ranWith = some (s.task k).arg
+  discPhase : ∀ k, (s.task k).discarded = true → 13 ≤ ph (s.pc 0) ∧ s.mode = false
+  /- the wait of wait_pool for detached workers -/
+  waitAlive : s.pc 0 = .fWait → 0 < s.alive
+  mainWait : s.pc 0 = .fWaiting → 0 ∈ s.waiters → s.alive = 0 → ∃ u, s.pc u = .wExitBcast
   /- only finitely many threads exist -/
   finSupp : ∃ N : Nat, ∀ u : Nat, N ≤ u → s.pc u = .none
 
